@@ -280,7 +280,7 @@ func ruleDeadlineDirection(c *Ctx, r *R) {
 	first := false
 	if iff, ok := fn.Blocks[0].Instrs[len(fn.Blocks[0].Instrs)-1].(*ssa.If); ok {
 		if cf, ok := (guard{cond: iff.Cond, val: true}).asCmp(); ok && cf.x == ssa.Value(dP) && cf.op == token.LEQ && isConstInt(cf.y, 0) {
-			if ret, ok := fn.Blocks[0].Succs[0].Instrs[len(fn.Blocks[0].Succs[0].Instrs)-1].(*ssa.Return); ok && isNilConst(ret.Results[0]) {
+			if ret, ok := fn.Blocks[0].Succs[0].Instrs[len(fn.Blocks[0].Succs[0].Instrs)-1].(*ssa.Return); ok && isNilConst(returnedValue(ret, 0)) {
 				first = true
 			}
 		}
@@ -309,12 +309,12 @@ func ruleDeadlineDirection(c *Ctx, r *R) {
 				switch a.kind {
 				case "ctx-done":
 					okE := false
-					if call, ok := ret.Results[0].(*ssa.Call); ok && call.Call.IsInvoke() && call.Call.Method.Name() == "Err" && isParamOf(call.Call.Value, fr.chain, ctxP) {
+					if call, ok := returnedValue(ret, 0).(*ssa.Call); ok && call.Call.IsInvoke() && call.Call.Method.Name() == "Err" && isParamOf(call.Call.Value, fr.chain, ctxP) {
 						okE = true
 					}
 					r.ok(okE, "xtime.SleepContext|ctx-arm-returns-err", retPos(ret), "the ctx.Done() arm must return ctx.Err()")
 				default:
-					r.ok(isNilConst(ret.Results[0]), "xtime.SleepContext|timer-arm-returns-nil", retPos(ret), "nil may be returned only from the arm in which the d-timer fired")
+					r.ok(isNilConst(returnedValue(ret, 0)), "xtime.SleepContext|timer-arm-returns-nil", retPos(ret), "nil may be returned only from the arm in which the d-timer fired")
 				}
 			}
 		}
